@@ -77,6 +77,8 @@ def own_records(s):
 
 
 def gen_case(rng):
+    if rng.random() < 0.12:
+        return gen_solo_case(rng)
     ops = []
     live = {}
     for _ in range(rng.randint(0, 6)):
@@ -146,6 +148,20 @@ def gen_case(rng):
     return dict(ops=ops, cache=cache_dgs, msgs=msgs, ucast_source=rng.random() < 0.25, services=services)
 
 
+def gen_solo_case(rng):
+    """one service alone on its host: its TTLs (and everything else) are edited in place after the record memo is warm"""
+    s0 = gen_service(rng)
+    s0['server'] = 'solo.local.'
+    s0['host_ttl'] = rng.choice([120, 60])
+    s1 = dict(s0, host_ttl=rng.choice([30, 240, 10]), other_ttl=rng.choice([4500, 50]), port=rng.choice([80, 9]), text=rng.choice([b'', b'\x01q']))
+    ops = [('add', s0), ('update-inplace', s1)]
+    if rng.random() < 0.3:
+        ops = [('add', s0), ('remove', s0['name']), ('add-same-object', s1)]
+    q = rng.choice([(s0['type'], 12), (s0['name'], 33), (s0['name'], 255), ('solo.local.', 1), ('solo.local.', 28)])
+    msgs = [dict(questions=[rec('KQuestion', q[0], q[1], 1)], answers=[], is_probe=False, now=100000)]
+    return dict(ops=ops, cache=[], msgs=msgs, ucast_source=False, services=[s1])
+
+
 # ------------------------------------------------------------------------------------------------
 # implementation
 # ------------------------------------------------------------------------------------------------
@@ -175,6 +191,7 @@ def observe(case):
     zc.async_notify_all = lambda: None
     rm = RecordManager(zc)
     infos = {}
+    removed = {}
     log = []
     for op, arg in case['ops']:
         try:
@@ -182,9 +199,18 @@ def observe(case):
                 info = mk_info(arg)
                 zc.registry.async_add(info)
                 infos[info.key] = info
+                # warm the record memo the way answering a query does
+                info.dns_pointer(); info.dns_service(); info.dns_text(); info.dns_addresses(); info.get_address_and_nsec_records()
             elif op == 'update-new':
                 info = mk_info(arg)
                 zc.registry.async_update(info)
+                infos[info.key] = info
+            elif op == 'add-same-object':
+                info = removed[arg['name'].lower()]
+                info.port, info.weight, info.priority = arg['port'], arg['weight'], arg['priority']
+                info.host_ttl, info.other_ttl = arg['host_ttl'], arg['other_ttl']
+                info._set_text(arg['text'])
+                zc.registry.async_add(info)
                 infos[info.key] = info
             elif op == 'update-inplace':
                 info = infos[arg['name'].lower()]
@@ -199,7 +225,7 @@ def observe(case):
                 key = arg.lower()
                 if key in infos:
                     zc.registry.async_remove(infos[key])
-                    del infos[key]
+                    removed[key] = infos.pop(key)
                 else:
                     zc.registry.async_remove(mk_info(dict(gen_dummy(), name=arg, type=arg.split('.', 1)[1])))
             log.append(0)
@@ -354,7 +380,7 @@ def coq_svc(s):
 def coq_case(case):
     ops = []
     for op, arg in case['ops']:
-        if op == 'add':
+        if op in ('add', 'add-same-object'):
             ops.append(f"RAdd {coq_svc(arg)}")
         elif op.startswith('update'):
             ops.append(f"RUpdate {coq_svc(arg)}")
